@@ -123,6 +123,20 @@ func runC11(r *mon.Run) {
 			seqs = append(seqs, string(b))
 		}
 	}
+	// longer structured histories beyond the enumerated depth: a prepared commitment refreshed several times (a proof
+	// consumes it only at the end), refreshes interleaved with re-signed accumulators, proofs in between
+	for _, sq := range []string{"POUPOUV", "POUPOUPOUV", "POUOUPV", "POUTPOUV", "POUPOUVPOUPOUV", "PPOUPOUV", "POOUPOOUPV", "POUPTOUPV", "POUVOUPOUPV", "PTPOUPOUPTV"} {
+		seqs = append(seqs, sq)
+	}
+	for i := 0; i < r.Pick(60, 600); i++ {
+		n := 7 + rng.IntN(6)
+		b := make([]byte, n)
+		for k := range b {
+			b[k] = "POUPOUTV"[rng.IntN(8)] // no self-revocation: the longer histories are about refreshing
+		}
+		b[n-1] = 'V'
+		seqs = append(seqs, string(b))
+	}
 	r.Set("history_sequences", len(seqs))
 	r.Set("history_sequences_exhaustive_part", exhaustiveN)
 	r.Set("exhaustive_scope", fmt.Sprintf("all operation sequences over {P=prepare,O=revoke other,S=revoke self,U=update witness,T=issuer re-signs the current accumulator with a later time,V=prove} of length <= %d that end in a proof", depth))
